@@ -83,8 +83,13 @@ def shuffled_listing(seed):
     is replaced by a top-down walk that lists every directory in a seeded random order and honours in-place edits of
     `dirs` (as os.walk does).  A tool whose output depends on the order in which the filesystem lists entries is exposed."""
     import random
+    import sys
     rng = random.Random(seed)
-    aux = importlib.import_module('pyFileFixity.lib.aux_funcs')
+    for m in list(TOOLS.values()) + ['pyFileFixity.lib.aux_funcs']:
+        importlib.import_module(m)
+    # the tools import the helper module under two names (`lib.aux_funcs` through their sys.path entry and
+    # `pyFileFixity.lib.aux_funcs`): every copy is patched
+    auxs = [m for n, m in list(sys.modules.items()) if m is not None and n.split('.')[-1] == 'aux_funcs' and hasattr(m, 'walk')]
 
     def walk(top, topdown=True, onerror=None, followlinks=False):
         try:
@@ -102,10 +107,11 @@ def shuffled_listing(seed):
             if followlinks or not os.path.islink(os.path.join(top, d)):
                 for x in walk(os.path.join(top, d), topdown, onerror, followlinks):
                     yield x
-    saved = (aux.walk, os.walk)
-    aux.walk = walk
-    os.walk = walk
+    saved = [(m, m.walk) for m in auxs] + [(os, os.walk)]
+    for m, _ in saved:
+        m.walk = walk
     try:
         yield
     finally:
-        aux.walk, os.walk = saved
+        for m, w in saved:
+            m.walk = w
